@@ -675,7 +675,7 @@ class Calls(Exec):
         if name == 'same':
             x = self.ev1(a[0], st)
             y = self.ev1(a[1], st)
-            return VBool(x.t == y.t)
+            return VBool(self.any_id(st, x) == self.any_id(st, y))
         if name == 'forall_keys':
             lam = a[0]
             q = fresh_int('q_key')
@@ -744,6 +744,15 @@ class Calls(Exec):
             ya, yo, yn = str_parts(y)
             return VBool(AND(xa == ya, xo == yo, xn == yn))
         raise Unsupported('spec form ' + name, node)
+
+    def any_id(self, st, v):
+        "opaque identity of a value (reference, or the id of a string / number); unions by cases"
+        if isinstance(v, VU):
+            t = self.any_id(st, v.alts[-1][1])
+            for c, x in reversed(v.alts[:-1]):
+                t = ITE(c, self.any_id(st, x), t)
+            return t
+        return self.flatten(st, ('any',), v)[0]
 
     def int_term(self, v, node=None):
         "z3 term of an int-valued spec value; the None alternative of an optional int is excluded by the clause's guard"
